@@ -1,4 +1,5 @@
 #!/bin/bash
+# (clean rebuild: the Ninja build does not track NASM %include dependencies)
 # Rebuild /repo/_build WITHOUT the verification guard (IMB_VERIF undefined) from the current working
 # tree and run the pinned test suite exactly as the baseline does.
 set -euo pipefail
@@ -7,5 +8,5 @@ if [ ! -f "$B/build.ninja" ]; then
   cmake -G Ninja -S /repo -B "$B" -DCMAKE_BUILD_TYPE=RelWithDebInfo -DBUILD_TESTING=ON -DCMAKE_C_FLAGS=-Wno-error >/dev/null
 fi
 if grep -q "IMB_VERIF" "$B/CMakeCache.txt"; then echo "guard leaked into baseline build" >&2; exit 2; fi
-cmake --build "$B" -j"$(nproc)" > "$B/verif_rebuild.log" 2>&1 || { tail -30 "$B/verif_rebuild.log"; exit 2; }
+cmake --build "$B" --clean-first -j"$(nproc)" > "$B/verif_rebuild.log" 2>&1 || { tail -30 "$B/verif_rebuild.log"; exit 2; }
 ctest --test-dir "$B" -j8 --timeout 900 --no-tests=error --output-on-failure 2>&1 | tail -15
